@@ -600,6 +600,16 @@ func (vc *FuncVC) execLibrary(st *State, reach Term, ins *ssa.Call, callee *ssa.
 	}
 	vc.libHavoc(name)
 	vc.vals[ins] = vc.freshVal("lib_"+callee.Name(), rt)
+	if vc.libResults == nil {
+		vc.libResults = map[string]libResult{}
+	}
+	vc.libResults[fmt.Sprintf("%s#%d", name, vc.siteOrd[ins])] = libResult{reach, vc.vals[ins]}
+}
+
+// libResult: where a library call was made and what it returned (for a `forwards` clause)
+type libResult struct {
+	reach Term
+	res   *Val
 }
 
 // modelNote records that a natively modelled library function or language feature was used (listed as an assumption)
@@ -1062,6 +1072,33 @@ func (vc *FuncVC) execReturn(st *State, reach Term, ins *ssa.Return) {
 		if _, clash := vars[name]; !clash {
 			vars[name] = v
 		}
+	}
+	if site := vc.fc.Forwards; site != "" && vc.discovery == 0 {
+		// forwards SITE: this return hands back exactly what the library call at SITE returned, and that call was made
+		goal := TFalse
+		if lr, ok := vc.libResults[site]; ok {
+			gs := []Term{lr.reach}
+			var parts []*Val
+			if lr.res.Kind == vTuple {
+				parts = lr.res.Elems
+			} else {
+				parts = []*Val{lr.res}
+			}
+			if len(parts) != len(ins.Results) {
+				gs = append(gs, TFalse)
+			} else {
+				for i, r := range ins.Results {
+					rv := vc.val(r)
+					if rv.Kind != vScalar || parts[i].Kind != vScalar || rv.T.Sort != parts[i].T.Sort {
+						gs = append(gs, TFalse)
+						continue
+					}
+					gs = append(gs, Eq(rv.T, parts[i].T))
+				}
+			}
+			goal = And(gs...)
+		}
+		vc.oblige("T", fmt.Sprintf("forwards/ret%d", k), reach, goal, vc.propTags(), ins.Pos(), "the results are exactly those of the call "+site+", which was made on this path")
 	}
 	env := vc.env(st, vars)
 	tags := vc.propTags()
